@@ -130,7 +130,10 @@ class StochasticSearcher(BaseSearcher):
         :param allow_duplicates: See above
         :return: Filtered ``restrict_configurations``
         """
-        assert len(restrict_configurations) > 0
+        if len(restrict_configurations) == 0:
+            # All configurations have been suggested already (this is the case
+            # when a searcher is cloned whose list is used up): nothing to filter
+            return restrict_configurations
         remove_p2e = []
         remove_rc = []
         matchstr_to_pos = {
